@@ -116,6 +116,14 @@ func runC13Case(rep *Report, c *c13Case, ent []byte, lines, expect, what *[]stri
 	if c.ExtraHdr != "" {
 		opts.HTTPHeader = http.Header{"X-Extra": {c.ExtraHdr}, "Cookie": {"a=b"}}
 	}
+	if c.ExtraHdr == "collide" {
+		// a caller (say, a proxy forwarding an incoming request's headers) whose headers carry the handshake's own names: what
+		// Dial sends under those names is Dial's
+		opts.HTTPHeader.Set("Connection", "keep-alive")
+		opts.HTTPHeader.Set("Upgrade", "h2c")
+		opts.HTTPHeader.Set("Sec-WebSocket-Version", "8")
+		opts.HTTPHeader.Set("Sec-WebSocket-Key", "c3RhbGUgc3RhbGUgc3RhbGUhIQ==")
+	}
 	callerHdr := opts.HTTPHeader.Clone()
 	ctx, cancel := context.WithTimeout(context.Background(), 5*time.Second)
 	defer cancel()
@@ -410,6 +418,9 @@ func runC13(ctx *runCtx) {
 		}
 		if rng.Intn(4) == 0 {
 			c.ExtraHdr = "v" + fmt.Sprint(i)
+			if i%3 == 0 {
+				c.ExtraHdr = "collide"
+			}
 		}
 		cases = append(cases, c)
 	}
